@@ -138,7 +138,7 @@ impl Prop for C18 {
          harness Parser that flattens TimeoutSettings, serde JSON} (+ Default). Oracle: a zero duration anywhere => construction fails (InvalidInput / a parse error), otherwise it \
          succeeds and the getters return what was given (flags: whole seconds, absent = the 4 s default). Every accepted value is then used (a) in real-socket queries (Quake 3 over \
          UDP, Minecraft legacy over TCP, Valve over UDP, Eco over HTTP) against loopback servers that answer at once, with retries capped at 1 so that nanosecond read timeouts cannot loop forever, \
-         and (b) with its full retry count in scripted queries of all 18 retrying entry points against a server that is silent twice and then answers: no panic (overflow checks on), \
+         and (b) with its full retry count in scripted queries of all 18 retrying entry points and the definition-driven dispatch of 12 table games against a server that is silent twice and then answers, and against one that answers with a malformed reply (the error path): no panic (overflow checks on), \
          and with r >= 2 the scripted query must succeed. Random cases also draw extra request settings (host names of any content and length, incl. multi-byte characters around byte 255 and names of 200-600 bytes; any protocol version; toggles) and use them for Minecraft Java / auto, Valve, Unreal 2, Quake, GameSpy and Eco queries: no panic. Random cases replace one timeout flag's value by a non-numeric / negative / overflowing value or by one of many spellings of zero (00, +0, 0.0, 0e0, ...): accepted only if u64's parser accepts it and it is not zero, and then the getter must return it. non-trivial = an extreme value is present; distinct = \
          digest of the case"
             .into()
@@ -317,6 +317,24 @@ impl Prop for C18 {
                 }
                 Ended::Err(k) if case.retries >= 2 => {
                     o.fail(format!("C18|query with accepted settings|{} retries but the third attempt was not made|{k:?}", if case.retries > 2 { "huge" } else { "2" }), json!({"entry": entry.sig_name(), "settings": format!("{settings:?}")}));
+                    return o;
+                }
+                _ => {}
+            }
+        }
+        // (b') scripted: a reply the parser rejects (never retried, so any retry count returns at once): the error path must not panic either
+        for (entry, units, _) in targets() {
+            let unit = *units.last().unwrap();
+            let st = state_for_entry(&entry, 1);
+            let (faulty, _log) = Faulty::new(st.responder(), entry.family(), unit, 0, vec![Fault::Malformed]);
+            let run = run_scripted(Box::new(faulty), || entry.call_full(&ip, Some(27015), Some(settings)).map(|_| ()));
+            match &run.ended {
+                Ended::Panic(p) => {
+                    o.fail(format!("C18|query with accepted settings|panic|{}|{}", p.site(), p.class()), json!({"entry": entry.sig_name(), "settings": format!("{settings:?}"), "server": "answers with a malformed reply", "panic": p}));
+                    return o;
+                }
+                Ended::Ok(_) => {
+                    o.fail("C18|query with accepted settings|a malformed reply gives Ok", json!({"entry": entry.sig_name(), "settings": format!("{settings:?}")}));
                     return o;
                 }
                 _ => {}
